@@ -273,7 +273,7 @@ def pgsSolve (sqrt : K → K) (P : Problem K) (pK tol sor0 sorMin sorFac inf : K
 /-! ## Kind-K contract for PLUS (exact rational arithmetic on the returned doubles)
 
 `plusAccept`: (1) every participating unilateral normal impulse does not pull (`sign·π ≤ 0`), (2) every contact
-friction impulse lies in the cone `π_x²+π_y² ≤ (1+tol)²·μ²·(π_z+πE_z)²` (+ absolute slack `tol²·scale²`), (3) bounded
+friction impulse lies in the cone `π_x²+π_y² ≤ ((1+tol)·|μ|·|π_z+πE_z| + tol·scale)²` (exact: no square root needed), (3) bounded
 multipliers are within `[lb−tol·s, ub+tol·s]`, (4) if `checkLinear` (only unconditional rows) the residual of
 `[A+D]π = rhs` on the participating rows is at most `tol·scale` in every component. -/
 def ratAbs (x : Rat) : Rat := if x < 0 then -x else x
@@ -284,7 +284,7 @@ def plusAccept (P : Problem Rat) (rhs pi : Array Rat) (tol scale : Rat) (checkLi
       (c.type ≠ 2 || decide (c.sign * vget pi c.Nk ≤ slack)) &&
       (c.type = 0 || c.Fk.isEmpty ||
         decide (normSq (gather pi c.Fk) ≤
-          (1 + tol) * (1 + tol) * (c.mu * c.mu) * square (vget pi c.Nk + vget P.piExpand c.Nk) + slack * slack))) &&
+          square ((1 + tol) * ratAbs c.mu * ratAbs (vget pi c.Nk + vget P.piExpand c.Nk) + slack)))) &&
   P.bounded.all (fun b => decide (b.lb - slack ≤ vget pi b.ix) && decide (vget pi b.ix ≤ b.ub + slack)) &&
   (!checkLinear || P.participating.all (fun r =>
       decide (ratAbs (doRowSum P.participating r P.A P.D pi - vget rhs r) ≤ slack)))
